@@ -137,6 +137,13 @@ func main() {
 	}
 	r := vh.NewRand(f.Seed)
 	g := &scangen.Gen{R: r, Corpus: scangen.LoadCorpus(0), Stat: o.Count}
+	// exhaustive small scope over the symbols that drive the hidden state (nParen, insertSemi)
+	depth := 4
+	if f.Tier == "thorough" {
+		depth = 6
+	}
+	scangen.Exhaustive(scangen.StateAlphabet, depth, func(b []byte) { one(b, 1) })
+	o.Stats["exhaustive_state_depth"] = depth
 	if f.Tier == "thorough" {
 		// exhaustive numeric / string literal spellings up to 6 characters
 		scangen.Exhaustive([]string{"0", "1", "8", "_", ".", "e", "x", "b", "p", "i", "+", "f"}, 5, func(b []byte) {
@@ -155,9 +162,12 @@ func main() {
 		g.R = rr
 		var src []byte
 		switch p := rr.Intn(100); {
-		case p < 60:
+		case p < 45:
 			o.Count("src_go_sequence")
 			src = goSequence(rr)
+		case p < 60:
+			o.Count("src_state_probe")
+			src = g.StateProbe(true)
 		case p < 70:
 			o.Count("src_go_sequence_mutated")
 			src = g.Mutate(goSequence(rr))
